@@ -21,16 +21,41 @@ func init() {
 	specs["C13"] = spec{Prop: "C13", Workload: "kv13", Race: true, Level: "exploration", Quick: 400, Thorough: 20000, PerBatch: 25, Watchdog: 10 * time.Minute,
 		Rule: "each case = PRNG-generated history of ~60 state-ledger calls (SetState/AddState incl. deletes and empty values, SetBalance/Nonce/Code, nested Snapshot/RevertToSnapshot, Finalise, FlushDirtyData+Commit, close+reopen) over 3 accounts x 7 keys that are prefixes of each other, with account-cache capacities 1-3 so evictions happen constantly (or default sizes); after every call a random subset, and before every flush / after every reopen the whole universe, of getters and prefix queries is compared with a map-based model; non-trivial = the history reverted a snapshot, reopened, or overwrote through AddState; distinct by (cache sizes, AddState used, set of such kinds)",
 		Assume: []string{"values written through the non-journaled AddState are 'unknown' to the model after a revert to an older snapshot (the statement promises restoration only for journaled values)", "'present and empty' vs 'absent' is not judged (leveldb cannot represent the difference)", "model/kv.go is the specification"},
-		RacePkgs: ledgerPkgs, MinStats: map[string]int64{"obs_state_reads": 5000, "obs_prefix_queries": 1000, "blocks": 300}}
+		MinStats: map[string]int64{"obs_state_reads": 5000, "obs_prefix_queries": 1000, "blocks": 300}}
 	specs["C12"] = spec{Prop: "C12", Workload: "kv12", Race: true, Level: "exploration", Quick: 150, Thorough: 5000, PerBatch: 10, Watchdog: 10 * time.Minute,
 		Rule: "state-ledger part: each case = ~140 generated calls forming 15-30 blocks (creations, overwrites, deletes, delete-then-recreate, code changes, AddState, accounts touched but unchanged) with RollbackState to targets inside the retained window (every distance), below it, above the head, repeated, optionally after a reopen; after a rollback every getter over the whole universe must equal the model state recorded when that height was committed, Version()==target, a refused rollback must leave the store byte-identical, and re-executing the recorded ops of block target+1 must reproduce its recorded root; distinct by (cache sizes, AddState used, rollback distances, refused, reexec)",
 		Assume: []string{"executor-level rollback (rollbackBlocks) is covered by the replica workload of C12b/C09", "model/kv.go is the specification"},
-		RacePkgs: ledgerPkgs, MinStats: map[string]int64{"rollbacks": 100, "reexecuted_blocks": 20}}
+		MinStats: map[string]int64{"rollbacks": 100, "reexecuted_blocks": 20}}
 }
 
 func init() {
 	specs["C10"] = spec{Prop: "C10", Workload: "root10", Race: true, Level: "exploration", Quick: 60, Thorough: 1500, PerBatch: 4, Watchdog: 10 * time.Minute,
 		Rule: "each case = a committed base state (2-3 blocks, 3 accounts + 1 brand-new one) and a generated write set W of 3-8 entries that differ from it (storage values incl. deletes, balance, nonce, code); W is realised on 6 forks by different histories (permuted order, split into txs, redundant intermediate writes, interleaved reads, reverted snapshots with unrelated storage / account-field writes, written-then-restored storage / account fields, AddState of an unchanged value) x (warm cache | reopened | cache capacity 1-2) and every fork's FlushDirtyData root must equal the plain in-order one; then every single-field perturbation of W (one value/balance/nonce/code changed, one entry dropped, one delete dropped, one key added, one key added on a new account) must change the root; distinct by (|W|, set of history styles used)",
 		Assume: []string{"sha256 collisions and the ambiguity of un-length-prefixed concatenation (needs two coordinated field changes) are outside 'single-field'", "empty values are left to C13", "transaction/receipt roots are checked by the independent recomputation in the C09 audit, which the block-level part of this check reuses"},
-		RacePkgs: ledgerPkgs, MinStats: map[string]int64{"forks": 100, "perturbations": 200}}
+		MinStats: map[string]int64{"forks": 100, "perturbations": 200}}
+}
+
+var execPkgs = []string{"internal/executor", "internal/ledger", "pkg/vm", "pkg/proof"}
+
+func init() {
+	ixRule := "each case = a copy of the fixture (3 appchains x 2 ordered services, built by real governance transactions from /repo's tree) and 25-40 generated blocks of 0-6 (sometimes 8-27) IBTP transactions over 3-6 ordered pairs incl. both directions of one pair and destinations that do not exist (begin-failed): requests with valid / duplicate / future / zero / 2^63 indices and timeouts {0,1,2,3,5,7,2^31,2^62,2^63-1,-1}, receipts success/failure/rollback with valid / duplicate / future / never-requested indices, before, in and after the expiry block and after final states, unrelated transfers, audit on/off, node restarts at random heights; the sequential model model/interchain.go (written from the statements) decides every IBTP in transaction order; "
+	specs["C02"] = spec{Prop: "C02", Workload: "ixc02", Race: true, Level: "exploration", Quick: 120, Thorough: 1500, PerBatch: 3, Watchdog: 15 * time.Minute,
+		Rule: ixRule + "oracles: receipt status of every IBTP tx == model verdict; after every block the four counters of every pair == accepted requests / finalised receipts; delivery metadata lists every accepted request exactly once for its destination chain and announces no rejected IBTP; GetIBTPByID resolves to the accepting tx; blocks holding only rejected IBTPs leave every key of the interchain and transaction-manager contracts unchanged. distinct = set of per-transaction status histories in the case",
+		Assume: []string{"all rules are the always-true rule here (proof handling is C03's job)", "services are registered 'ordered' (unordered services skip the index check by design)"},
+		MinStats: map[string]int64{"ibtp_accepted": 300, "ibtp_rejected": 300, "obs_counter_checks": 1000, "obs_rejected_only_blocks": 10}}
+	specs["C04"] = spec{Prop: "C04", Workload: "ixc04", Race: true, Level: "exploration", Quick: 120, Thorough: 1500, PerBatch: 3, Watchdog: 15 * time.Minute,
+		Rule: ixRule + "oracles: GetStatus(id) after every block for every id ever accepted == the model's status; every observed change is a path of protocol edges no longer than the number of accepted events for that id in the block; final statuses never change; receipts needing a non-edge are rejected. distinct = set of per-transaction status histories in the case",
+		Assume: []string{"inter-BitXHub notices (dst_failure / dst_rollback) are exercised by the C03 workload, not here"},
+		MinStats: map[string]int64{"obs_status_queries": 3000, "set:status_edges": 6}}
+	specs["C06"] = spec{Prop: "C06", Workload: "ixc06", Race: true, Level: "exploration", Quick: 120, Thorough: 1500, PerBatch: 3, Watchdog: 15 * time.Minute,
+		Rule: ixRule + "oracles: TimeoutCounter of every block, for every chain key, == the requests accepted at H with 0<T<2^64-H whose due height H+T is this block and that have no accepted receipt at a height <= due; status BEGIN_ROLLBACK exactly from the due block; afterwards only rollback/failure receipts accepted. distinct = set of per-transaction status histories in the case",
+		Assume: []string{"horizon: 25-40 blocks per case, so timeouts > 40 are only checked for 'never fires'", "one-to-many groups are checked by C05"},
+		MinStats: map[string]int64{"expired_requests": 20, "obs_timeout_blocks": 1000}}
+}
+
+func init() {
+	specs["C08"] = spec{Prop: "C08", Workload: "total08", Race: true, Level: "exploration", Quick: 240, Thorough: 3000, PerBatch: 4, Watchdog: 20 * time.Minute,
+		Rule: "each case = a copy of the extended fixture (standard world + appchains bound to harness-authored WASM rules: first-byte / trap / fuel-burn) and 10 blocks of 1-20 hostile transactions at random positions among valid neighbours: (a) every exported method reachable through the BVM dispatcher (enumerated by reflection over the registered contract objects, ~570 entries incl. promoted stub methods) with well-typed, type-confused and wrong-arity argument vectors naming existing objects; (b) malformed IBTPs (ids with 0-5 separators, index/timeout extremes, unknown types, inconsistent groups, absent / mismatching / rule-rejected proofs, garbage envelope); (c) byte-level mutations of marshalled transaction data; (d) unknown tx/vm types, callee without code, garbage wasm, non-numeric amounts; (e) missing / truncated / mutated signatures; proof_type serial|parallel, audit on|off, random LocalList. Oracle: worker process alive, ExecutedEvent within the watchdog, one receipt per tx in block order, height+1. distinct by (config, set of hostile kinds in the case)",
+		Assume: []string{"a dead worker is attributed to the block logged right before it died", "EVM path beyond the dispatcher is not driven", "watchdog 120 s per block; firing with the executor parked = wedged, otherwise inconclusive"},
+		MinStats: map[string]int64{"txs": 3000, "set:methods_called": 200, "kind:ibtp": 300, "kind:badsig": 50}}
 }
